@@ -227,6 +227,7 @@ Proof.
       * intros. apply IH. cbn [depth] in *. lia.
     + (* EObject *)
       destruct entries as [|e0 es0]; [nf_go IH Hd|]. destruct ctx; [apply nf_unsup|].
+      match goal with |- context [if ?b then _ else _] => destruct b end; [apply nf_unsup|].
       apply each_nf. intros c0 st0. apply nf_bind.
       * apply obj_entries_nf. intros ke ve Hin.
         assert (Hkv : (depth ke <= f /\ depth ve <= f)%nat).
